@@ -254,9 +254,88 @@ def run(ctx):
     ctx.check(okl, 'C19-data', 'zone data with leap-second records is rejected', fl,
               'Load can succeed without leapcnt == 0 having been established for the header whose data is decoded (e.g. only the '
               'first header of a version-2 file is checked): leap-second files load as ordinary zones', construct='data:leapcnt')
+    # end of data while the footer is read is a failed load: once a character read from the source is known to be
+    # EOF no accepting return is reachable
+    from .loader import _reach_from
+    n_eof = 0
+    for n in gl.live:
+        if n.kind != 'cond':
+            continue
+        for lab in ('T', 'F'):
+            for (op, a, b) in Fl.cond_facts(n.ast, lab == 'T'):
+                if op == '==' and 'n:-1' in (a, b):
+                    var = a if b == 'n:-1' else b
+                    m = re.match(r'^\w+#(0x[0-9a-f]+)$', var)
+                    d = ul.by_id.get(m.group(1)) if m else None
+                    if d is None or d.get('kind') != 'VarDecl' or (dtype(d) or qtype(d)) != 'int':
+                        continue
+                    src = [kids(d)[-1]] if kids(d) else []
+                    src += [kids(y)[1] for y in walk(fl) if y.get('kind') == 'BinaryOperator' and y.get('opcode') == '=' and
+                            (peel(kids(y)[0]).get('referencedDecl') or {}).get('id') == d['id']]
+                    if not src or not all(any(z.get('kind') in ('CallExpr', 'CXXOperatorCallExpr', 'CXXMemberCallExpr') for z in walk(e_)) for e_ in src):
+                        continue
+                    n_eof += 1
+                    starts = [m_ for (m_, l_) in n.succs if l_ == lab]
+                    leak = _reach_from(gl, starts, accl)
+                    ctx.check(not leak, 'C19-data', 'end of data in the footer (%s == EOF) fails the load' % var.split('#')[0], n.ast,
+                              'after a character read from the source is found to be EOF, Load can still return true: a file '
+                              'truncated inside its footer loads as a zone', construct='data:eof:%s' % var.split('#')[0])
+    if n_eof < 1:
+        ctx.bad('C19-data', 'end of data in the footer fails the load', fl,
+                'no test of a character read from the source against EOF was found in Load: a file truncated inside its footer '
+                'is not refused', construct='data:eof')
+    # C19-path: a list of directory prefixes that contains the empty prefix is walked only for absolute names
+    from ..symval import SymVal, render
+    n_lists = 0
+    for kk, (uu, ff) in sorted(G.defs.items()):
+        if not re.search(r'ZoneInfoSource::Open$', kk[0]):
+            continue
+        lists = {}
+        for x in walk(ff):
+            if x.get('kind') == 'VarDecl' and kids(x):
+                strs = [y for y in walk(kids(x)[-1]) if y.get('kind') == 'StringLiteral']
+                il = [y for y in walk(kids(x)[-1]) if y.get('kind') == 'InitListExpr']
+                if strs and (il or 'initializer_list' in (dtype(x) or qtype(x))):
+                    lists['%s#%s' % (x.get('name'), x['id'])] = [y.get('value') for y in strs]
+        loops_ = [x for x in walk(ff) if x.get('kind') == 'CXXForRangeStmt']
+        if not lists or not loops_:
+            continue
+        sv = SymVal(ctx, ff)
+        Ff = ctx.facts(ff)
+        for lp in loops_:
+            rng = [x for x in walk(lp) if x.get('kind') == 'VarDecl' and (x.get('name') or '').startswith('__range')]
+            if not rng or not kids(rng[0]):
+                continue
+            val = sv.value_ast(kids(rng[0])[-1])
+            own = '%s#%s' % (rng[0].get('name'), rng[0]['id'])
+            if own in lists and not any(render(t) in lists for (gd, t) in (val or ())):
+                val = ((frozenset(), ('key', None, own)),)       # the list is written in the loop header itself
+            for (gd, t) in (val or ()):
+                lk = render(t)
+                if lk not in lists:
+                    continue
+                n_lists += 1
+                if '""' not in lists[lk]:
+                    ctx.ok('C19-path', 'prefix list %s in %s has no empty prefix' % (lk.split('#')[0], fname(kk)), lp, '')
+                    continue
+                fs = sv.facts(gd)
+                absolute = False
+                for fa in fs:
+                    if fa[0] == '!=' and 'n:0' in (fa[1], fa[2]):
+                        other = fa[1] if fa[2] == 'n:0' else fa[2]
+                        if re.search(r"== (n|int):47\)", Ff.resolve_key(other)):
+                            absolute = True
+                ctx.check(absolute, 'C19-path', 'empty prefix (%s) in %s is used only for absolute names' % (lk.split('#')[0], fname(kk)), lp,
+                          'a list of directory prefixes containing the empty prefix is walked without the name having been found to '
+                          'start with "/": a relative name that is not found under the zoneinfo directories is opened relative to '
+                          'the current directory, so load_time_zone succeeds for names it must refuse',
+                          construct='path:%s:%s' % (fname(kk), lk.split('#')[0]), detail=str(fs)[:120])
+    if n_lists < 1:
+        raise AnalysisBroken('C19-path: no prefix list walked by a zone source was found')
+    ctx.minimum('C19-path', 2)
     lits = set(y.get('value') for y in walk(f) if y.get('kind') == 'StringLiteral')
     for lit in ('":localtime"', '"localtime"', '"/etc/localtime"'):
         ctx.check(lit in lits, 'C19-env', 'local_time_zone uses %s' % lit, f,
                   'the documented default %s is not used by local_time_zone' % lit, construct='lit:%s' % lit)
     ctx.minimum('C19-env', 10)
-    ctx.minimum('C19-data', 1)
+    ctx.minimum('C19-data', 2)
